@@ -31,7 +31,7 @@ pub fn def() -> CheckDef {
             let m = if t == Tier::Quick { 1 } else { 30 };
             let big_min = super::big::count(t) / 2;
             vec![
-                ("big_model_cases_completed", big_min),("distinct_nontrivial", 150 * m), ("colours_compared", 5000 * m), ("networks_with_shared_symbol", 50 * m), ("witness_comparisons", 2000 * m), ("constraint_variant_comparisons", 500 * m), ("wide_colours_compared", 150 * m), ("wide_cases_with_colour_specific_answer", 20 * m)]
+                ("big_model_cases_completed", big_min),("distinct_nontrivial", 150 * m), ("colours_compared", 5000 * m), ("networks_with_shared_symbol", 50 * m), ("witness_comparisons", 2000 * m), ("constraint_variant_comparisons", 500 * m), ("wide_colours_compared", 150 * m), ("colour_restricted_graph_comparisons", 500 * m), ("wide_cases_with_colour_specific_answer", 20 * m)]
         },
         run,
         prelude: None,
@@ -287,6 +287,27 @@ fn run(rng: &mut Rng, idx: u64, tier: Tier) -> CaseOut {
                                 }
                             }
                         }
+                    }
+                }
+            }
+        }
+    }
+    // (d) the same network, the graph restricted to a subset of the colours (custom unit set): every colour that is
+    // still admitted keeps its answer
+    if rng.coin() {
+        if let Ok(Ok(Some((s3, what)))) = libg::guarded(|| libg::build_sys_colour_restricted(&world.net, k, &world.cs.bits, rng)) {
+            for ep in [Ep::FormulaDirty, Ep::MultipleDirty] {
+                if let Call::Ok(r3) = run_ep(ep, &text, &s3, &empty) {
+                    let u3 = s3.graph.unit_colored_vertices();
+                    out.count("colour_restricted_graph_comparisons");
+                    let here = coloured.as_bdd().and(u3.as_bdd());
+                    if r3.as_bdd() != &here {
+                        out.violate(
+                            "answer for a colour depends on which other colours the model admits",
+                            format!("`{text}`: on the graph restricted to the colours {what}, {} gives {} elements, the unrestricted result has {} elements for these colours", ep.name(), r3.approx_cardinality(), here.cardinality()),
+                            case_json(&world, &[text.clone()], vec![("colour_restriction", J::s(&what)), ("entry_point", J::s(ep.name()))]),
+                        );
+                        return out;
                     }
                 }
             }
